@@ -384,7 +384,9 @@ func TestConcurrent(t *testing.T) {
 		x := seed + uint64(r)*0x9e3779b97f4a7c15
 		next := func() uint64 { x ^= x << 13; x ^= x >> 7; x ^= x << 17; return x }
 		trig := make(chan struct{})
+		var entered int64
 		st := ctxstack.New(func(stopCh chan struct{}) {
+			atomic.AddInt64(&entered, 1)
 			select {
 			case <-stopCh:
 			case <-trig:
@@ -439,6 +441,23 @@ func TestConcurrent(t *testing.T) {
 		}
 		close(done)
 		wg.Wait()
+		// an interrupt takes effect asynchronously: wait until the stack's
+		// goroutine has handled the last one (it re-enters the trigger
+		// function afterwards), otherwise it could hit whatever is the top
+		// later on, which would be this test's race, not fq's
+		settled := false
+		for i := 0; i < 600000; i++ {
+			if atomic.LoadInt64(&entered) == atomic.LoadInt64(&interrupts)+1 {
+				settled = true
+				break
+			}
+			time.Sleep(100 * time.Microsecond)
+		}
+		if !settled {
+			harness.ExtraAdd("concurrent_inconclusive", 1)
+			st.Stop()
+			continue
+		}
 		// level 0 was never the top while interrupts were sent
 		if ctx0.Err() != nil {
 			if harness.Violate(t.Name(), "concurrent:enclosing-cancelled", fmt.Sprintf("the bottom level was cancelled although it never was the innermost level (round %d, %d interrupts)", r, interrupts), map[string]any{"round": r}) {
